@@ -18,7 +18,7 @@ EXPLANATION = (
     "CBOR or Digest::from_data_ref's length check (dependency summaries), nor stack exhaustion on unbounded nesting.")
 TRUSTED = ['Digest::from_data_ref rejects data whose length is not 32', 'CBOR::try_from_data accepts only deterministic CBOR',
            'EncryptedMessage::has_digest / Compressed::has_digest report whether a digest is declared']
-FLOORS = {'C06.1': 1, 'C06.2': 1, 'C06.3': 9, 'C06.6': 1, 'C06.7': 2}
+FLOORS = {'C06.1': 1, 'C06.2': 1, 'C06.3': 9, 'C06.6': 1, 'C06.7': 2, 'C06.11': 8}
 
 
 def strict_order_closure(F, clo):
@@ -312,6 +312,15 @@ _check_inner = check
 
 def check(ctx):
     _check_inner(ctx)
+    # C06.11: the decoder hands its decoded elements to a node constructor only behind the checks the writers rely on: every
+    # element of the assertion vector is an assertion or obscured (all of them, the last one included) and the vector is not empty.
+    # These are the C04.4 / C04.1 instances at the decoder's construction sites, re-evaluated under this property.
+    from . import C04
+    from .C07 import Relabel
+    try:
+        C04.check(Relabel(ctx, 'C06.11', ['C04.4', 'C04.1']))
+    except Exception as e:
+        ctx.fail('C06.11', '-', 'decoder-side element validity (C04.4/C04.1) could not be evaluated: %r' % e, key='C06.11|c04')
     from .. import panic
     F = ctx.F
     entries = F.trait_impl('CBORTaggedDecodable', 'Envelope', 'from_untagged_cbor') + F.trait_impl('TryFrom', 'Envelope', 'try_from', trait_full_contains='CBOR') \
